@@ -109,7 +109,8 @@ func runHist(casesPath, tracePath string, reps int) {
 		if err := json.Unmarshal(raw, &c); err != nil {
 			return err
 		}
-		for _, pol := range policies {
+		for _, pl := range polLoads {
+			pol, load := pl.pol, pl.load
 			cl := cluster.NewCluster(v2.Cluster{Name: fmt.Sprintf("c05-%s", pol), LbType: v2.LbType(pol)})
 			info := cl.Snapshot().ClusterInfo()
 			// health flags live per address process-wide: reset
@@ -118,7 +119,11 @@ func runHist(casesPath, tracePath string, reps int) {
 				probe[k] = cluster.NewSimpleHost(v2.Host{HostConfig: v2.HostConfig{Address: addrs[k], Hostname: k, Weight: weights[k]}}, info)
 				setHealth(probe[k], true)
 			}
-			tr.Emit(vh.Ev{"ev": "new", "policy": string(pol)})
+			label := string(pol)
+			if load != "" {
+				label += "/" + load
+			}
+			tr.Emit(vh.Ev{"ev": "new", "policy": label})
 			// contexts that live across operations (a request retried after the host set or health changed):
 			// persistent[i] is used i+1 times per choose operation
 			persistent := []*lbCtx{newCtx(rng.Uint64()), newCtx(rng.Uint64()), newCtx(rng.Uint64())}
@@ -144,6 +149,7 @@ func runHist(casesPath, tracePath string, reps int) {
 					setHealth(h, !h.Health())
 					tr.Emit(vh.Ev{"ev": "flip", "h": o.H, "now": h.Health()})
 				case "choose":
+					setLoad(cl.Snapshot().HostSet(), load)
 					seen := map[string]bool{}
 					for i := 0; i < reps; i++ {
 						snap := cl.Snapshot()
@@ -174,6 +180,40 @@ func runHist(casesPath, tracePath string, reps int) {
 	})
 	vh.Must(err, "hist cases")
 	fmt.Printf("hist replays=%d events=%d\n", n, tr.Len())
+}
+
+// The load-sensitive policies are replayed a second time with the hosts' activity counters skewed against the property:
+// every unhealthy member idle, every healthy member busy (a host whose connections were closed when it failed its check).
+type polLoad struct {
+	pol  types.LoadBalancerType
+	load string
+}
+
+var polLoads = func() []polLoad {
+	out := []polLoad{}
+	for _, p := range policies {
+		out = append(out, polLoad{p, ""})
+		switch p {
+		case types.LeastActiveRequest, types.LeastActiveConnection, types.PeakEwma:
+			out = append(out, polLoad{p, "busy-healthy"})
+		}
+	}
+	return out
+}()
+
+func setLoad(hs types.HostSet, load string) {
+	i := int64(0)
+	hs.Range(func(h types.Host) bool {
+		st := h.HostStats()
+		st.UpstreamConnectionActive.Clear()
+		st.UpstreamRequestActive.Clear()
+		if load == "busy-healthy" && h.Health() {
+			i++
+			st.UpstreamConnectionActive.Inc(2 + i)
+			st.UpstreamRequestActive.Inc(2 + i)
+		}
+		return true
+	})
 }
 
 func hsNames(hs types.HostSet) []string {
